@@ -12,7 +12,7 @@ check = runner._load_check(cid)
 if sys.argv[2].endswith(".json"):
     case = json.load(open(sys.argv[2])); case = case.get("case", case)
 else:
-    case = check.gen(core.rng_for(int(os.environ.get("VERIF_SEED", "1")), cid, int(sys.argv[2])), sys.argv[3] if len(sys.argv) > 3 else "quick")
+    case = runner.make_case(check, cid, int(os.environ.get("VERIF_SEED", "1")), int(sys.argv[2]), sys.argv[3] if len(sys.argv) > 3 else "quick")
 import sim.core
 orig = sim.core.World.call
 def call(self, node, op):
